@@ -223,7 +223,7 @@ FUNCTIONS.update({
              'forall(t, "int", implies(not (result and old("__Tag" in msg_properties) and t == old(msg_properties["__Tag"])), (t in self._tag_map) == old(t in self._tag_map)))',
              # a request that is going to be written keeps its tag
              'implies(not result, unchanged("set[int]") and unchanged("TagPool._next") and forall(t, "int", (t in self._tag_map) == old(t in self._tag_map)))'],
-    modifies=['dict[int,tuple[ClientMessageSinkStack,real,Props]]', 'set[int]', 'Props.tag', 'Props.has_tag'],
+    modifies=['Observable.g_nsubs', 'dict[int,tuple[ClientMessageSinkStack,real,Props]]', 'set[int]', 'Props.tag', 'Props.has_tag'],
     allocates=True,
     props=['C11', 'C12'],
   ),
